@@ -1207,65 +1207,81 @@ func (cfg *Config) globDir(base, dir string, matcher func(string) bool, wantDir 
 // empty config.
 func ReadFields(cfg *Config, s string, n int, raw bool) []string {
 	cfg = prepareConfig(cfg)
-	type pos struct {
-		start, end int
+	// A backslash removes any special meaning from the next character,
+	// unless raw is set; an escaped character never separates fields.
+	type char struct {
+		r   rune
+		esc bool
 	}
-	var fpos []pos
-
-	runes := make([]rune, 0, len(s))
-	infield := false
+	chars := make([]char, 0, len(s))
 	esc := false
 	for _, r := range s {
-		if infield {
-			if cfg.ifsRune(r) && (raw || !esc) {
-				fpos[len(fpos)-1].end = len(runes)
-				infield = false
-			}
-		} else {
-			if !cfg.ifsRune(r) && (raw || !esc) {
-				fpos = append(fpos, pos{start: len(runes), end: -1})
-				infield = true
-			}
-		}
-		if r == '\\' {
-			if raw || esc {
-				runes = append(runes, r)
-			}
-			esc = !esc
+		if !raw && !esc && r == '\\' {
+			esc = true
 			continue
 		}
-		runes = append(runes, r)
+		chars = append(chars, char{r, esc})
 		esc = false
 	}
-	if len(fpos) == 0 {
-		return nil
+	isSep := func(c char) bool { return !c.esc && cfg.ifsRune(c.r) }
+	isSpaceSep := func(c char) bool { return !c.esc && cfg.ifsWhitespace(c.r) }
+	pos := 0
+	skipSpaces := func() {
+		for pos < len(chars) && isSpaceSep(chars[pos]) {
+			pos++
+		}
 	}
-	if infield {
-		fpos[len(fpos)-1].end = len(runes)
+	// nextField reads one field and the delimiter after it: a single
+	// non-whitespace IFS character with any IFS whitespace around it,
+	// or a run of IFS whitespace.
+	var sb strings.Builder
+	nextField := func() (string, bool) {
+		skipSpaces()
+		if pos >= len(chars) {
+			return "", false
+		}
+		sb.Reset()
+		for pos < len(chars) && !isSep(chars[pos]) {
+			sb.WriteRune(chars[pos].r)
+			pos++
+		}
+		if pos < len(chars) {
+			spaceSep := isSpaceSep(chars[pos])
+			pos++
+			skipSpaces()
+			if spaceSep && pos < len(chars) && isSep(chars[pos]) {
+				pos++
+				skipSpaces()
+			}
+		}
+		return sb.String(), true
 	}
 
-	switch {
-	case n == 1:
-		// The single field spans the whole line minus leading and trailing
-		// IFS whitespace; anything outside the fields is already IFS.
-		lo, hi := 0, len(runes)
-		for lo < fpos[0].start && cfg.ifsWhitespace(runes[lo]) {
-			lo++
+	var fields []string
+	skipSpaces()
+	for n < 0 || len(fields) < n-1 {
+		field, ok := nextField()
+		if !ok {
+			return fields
 		}
-		for hi > fpos[len(fpos)-1].end && cfg.ifsWhitespace(runes[hi-1]) {
-			hi--
-		}
-		fpos[0].start, fpos[0].end = lo, hi
-		fpos = fpos[:1]
-	case n != -1 && n < len(fpos):
-		// combine to max n fields
-		fpos[n-1].end = fpos[len(fpos)-1].end
-		fpos = fpos[:n]
+		fields = append(fields, field)
 	}
-
-	fields := make([]string, len(fpos))
-	for i, p := range fpos {
-		fields[i] = string(runes[p.start:p.end])
+	if pos >= len(chars) {
+		return fields
 	}
-	return fields
+	// The last field takes the rest of the line. If that is a single field,
+	// its delimiter is dropped; otherwise only trailing IFS whitespace is.
+	start := pos
+	if field, _ := nextField(); pos >= len(chars) {
+		return append(fields, field)
+	}
+	end := len(chars)
+	for end > start && cfg.ifsWhitespace(chars[end-1].r) {
+		end--
+	}
+	sb.Reset()
+	for _, c := range chars[start:end] {
+		sb.WriteRune(c.r)
+	}
+	return append(fields, sb.String())
 }
